@@ -97,12 +97,12 @@ def run_exclude(ctx, case, verbose=False):
     db = os.path.join(d, "x.db")
     L.create_db(db, case["cur"])
     vlib.write_files(d, {"want.hcl": L.hcl(case["want"])})
-    proj, xflags, use_env = L.exclude_invocation(case)
+    proj, xflags, use_env, to, frm = L.exclude_invocation(case)
     if use_env:
         vlib.write_files(d, {"atlas.hcl": proj})
-        args = ["schema", "apply", "--env", "e", "--auto-approve"] + xflags
+        args = ["schema", "apply", "--env", "e", "--auto-approve"] + (["--to", to] if to else []) + xflags
         iargs = ["schema", "inspect", "--env", "e"] + xflags
-        dargs = ["schema", "diff", "--env", "e", "--from", "sqlite://x.db", "--to", "file://want.hcl"] + xflags
+        dargs = ["schema", "diff", "--env", "e", "--from", frm, "--to", to or "file://want.hcl"] + xflags
     else:
         args = ["schema", "apply", "--url", "sqlite://x.db", "--to", "file://want.hcl", "--auto-approve"] + xflags
         iargs = ["schema", "inspect", "--url", "sqlite://x.db"] + xflags
@@ -120,6 +120,7 @@ def run_exclude(ctx, case, verbose=False):
     rc, out, err = ctx.atlas_run(args, d)
     if verbose:
         print(out, err)
+    env_guard(out, err, iout, ierr, dout, derr)
     if 124 in (rc, irc, drc):
         ctx.inconclusive("watchdog")
         return
@@ -247,6 +248,7 @@ def run_exclude(ctx, case, verbose=False):
             if rc2 == 124:
                 ctx.inconclusive("watchdog")
                 return
+            env_guard(out2, err2)
             if rc2 != 0 or not L.synced(out2) or vlib.dump_db(db) != after:
                 v.add("cli|excl|second-apply-not-synced", "second identical apply: rc=%d output=%s" % (rc2, (out2 + err2)[-500:]))
     # ---- evidence ----
@@ -313,6 +315,7 @@ def run_skip(ctx, case, verbose=False):
     rc, out, err = ctx.atlas_run(args, d)
     if verbose:
         print(proj, out, err)
+    env_guard(out, err)
     if rc == 124:
         ctx.inconclusive("watchdog")
         return
@@ -372,6 +375,7 @@ def run_skip(ctx, case, verbose=False):
             if rc2 == 124:
                 ctx.inconclusive("watchdog")
                 return
+            env_guard(out2, err2)
             if rc2 != 0 or not L.synced(out2) or vlib.dump_db(db) != after:
                 v.add("cli|skip|second-apply-not-synced", "second identical apply: rc=%d output=%s" % (rc2, (out2 + err2)[-500:]))
     for a, sk in zip(case["atoms"], skipped):
@@ -421,11 +425,35 @@ def gen_cases(ctx):
     return cases
 
 
+ENV_ERRORS = ("database or disk is full", "disk I/O error", "no space left on device", "unable to open database file")
+
+
+class Environment(Exception):
+    pass
+
+
+def env_guard(*texts):
+    """An apply / inspect that fails because the machine ran out of disk observed nothing about the property."""
+    for t in texts:
+        for e in ENV_ERRORS:
+            if t and e in t:
+                raise Environment(e)
+
+
 def run_case(ctx, case, verbose=False):
-    if case["kind"] == "skip":
-        run_skip(ctx, case, verbose)
-    else:
-        run_exclude(ctx, case, verbose)
+    import sqlite3
+    try:
+        if case["kind"] == "skip":
+            run_skip(ctx, case, verbose)
+        else:
+            run_exclude(ctx, case, verbose)
+    except Environment as e:
+        ctx.inconclusive("environment: " + str(e))
+    except (sqlite3.OperationalError, sqlite3.DatabaseError, OSError) as e:
+        if any(x in str(e) for x in ENV_ERRORS) or getattr(e, "errno", None) == 28:
+            ctx.inconclusive("environment: " + str(e)[:60])
+        else:
+            raise
 
 
 def main():
